@@ -33,7 +33,16 @@ MANIFEST = {
             "make_whole=False every non-anchor molecule moves rigidly; unit cell and time bit-identical; inplace=False "
             "leaves the source bit-identical, returns a new object sharing no memory; inplace=True returns self and "
             "produces bit-identical coordinates. Separately Topology.find_molecules() must equal the union-find connected components "
-            "for every system and for every labelled bond graph on 1..5 atoms (1099 graphs x 2 bond-list orders). History layer: "
+            "for every system and for every labelled bond graph on 1..5 atoms (1099 graphs x 2 bond-list orders). Explicit sorted_bonds=: for every system variant (all relabellings) "
+            "make_molecules_whole and image_molecules(make_whole=True) are also called with a caller-supplied, correct "
+            "placement order (breadth-first walk from the HIGHEST atom index of each molecule, thorough also from the lowest; "
+            "rows (placed atom, atom to place), mostly not lexicographically sorted) and judged by the same lattice / "
+            "bonded-pair oracle; the argument must not be modified. Tiny cells: six cells with edges 0.4-0.7 nm (3 "
+            "orthorhombic, monoclinic, hexagonal, triclinic; thorough + unreduced forms; bond = 0.2 x smallest width) for the "
+            "di-/tri-atomic systems (thorough + 4-star, 6-atom mix): besides the many-frame trajectory every scatter frame "
+            "(27^2; 3 atoms: atom 0 fixed x 27^2) is also re-imaged ALONE as a 1-frame trajectory, must be bit-identical to "
+            "its result inside the big trajectory and is judged by the oracle - decisions taken over all frames of a "
+            "trajectory cannot hide behind other frames. History layer: "
             "ONE Topology object shared by successive trajectories, every op sequence of length 2..3 (thorough 4 on 3 cell "
             "pairs, 3 on all) ending in a re-imaging op over {make_molecules_whole, image_molecules(make_whole=True), "
             "insert_atom at the front / inside the first molecule (+ coordinates), delete_atom_by_index of the lowest "
@@ -66,9 +75,25 @@ _SYS = {}
 
 
 def _menu(quick):
+    """grids menu (incl. unreduced forms) followed by the tiny cells (flag tiny)."""
     if quick not in _MENU:
-        _MENU[quick] = grids.cell_menu(quick=quick, unreduced=True)
+        _MENU[quick] = grids.cell_menu(quick=quick, unreduced=True) + idn.tiny_cells(quick)
     return _MENU[quick]
+
+
+def _pair(ci, menu):
+    """Cell pair of work item ci: the cell and the next one of the same group (ordinary / tiny), cyclically."""
+    grp = [i for i, c in enumerate(menu) if bool(c.get("tiny")) == bool(menu[ci].get("tiny"))]
+    return [menu[ci], menu[grp[(grp.index(ci) + 1) % len(grp)]]]
+
+
+def _tiny_system(name, quick):
+    """Systems run in the tiny cells: di-/tri-atomics (thorough: also the 4-star and the 6-atom mix, first bond order)."""
+    if name == "diatomic" or name.startswith("chain3") and (not quick or name.endswith("perm=0")):
+        return True
+    if name.startswith("ring3") and name.endswith("perm=0"):
+        return True
+    return not quick and (name.startswith("star4") and name.endswith("perm=0") or name.startswith("mix6") and "perm=0" in name)
 
 
 def _systems(quick):
@@ -79,7 +104,9 @@ def _systems(quick):
 
 def cases(quick):
     """(system variant, cell pair) work items, plus (-1, 0): the bond-graph enumeration for find_molecules."""
-    return [(-1, 0)] + hist_cases(quick) + [(si, ci) for si in range(len(_systems(quick))) for ci in range(len(_menu(quick)))]
+    menu, systems = _menu(quick), _systems(quick)
+    return [(-1, 0)] + hist_cases(quick) + [(si, ci) for si in range(len(systems)) for ci in range(len(menu))
+                                             if not menu[ci].get("tiny") or _tiny_system(systems[si]["name"], quick)]
 
 
 def _cellclass(cell):
@@ -171,7 +198,8 @@ def run_topologies(quick):
 def _empty_stats():
     return dict(evals=0, nontrivial=0, err=0.0, guess_raised=0, md_inconsistent=0, excluded_ambiguous=0,
                 excluded_illcond=0, anchor_not_rigid_recorded=0, frames=0, sample=None, api_runs=0, tuples_checked=0,
-                topologies=0, histories=0, histories_pruned=0)
+                topologies=0, histories=0, histories_pruned=0, explicit_bond_calls=0, explicit_bond_identical_to_default=0,
+                single_frame_calls=0)
 
 
 def _min_image_rows(disp, V, sel, Rs):
@@ -238,7 +266,8 @@ def hist_cases(quick):
     named = [(names.index(a), names.index(b)) for a, b in HIST_PAIRS if a in names and b in names]
     items = [(pr, 3 if quick else 4) for pr in named]
     if not quick:
-        items += [((i, (i + 1) % len(menu)), 3) for i in range(len(menu))]
+        ordinary = [i for i, c in enumerate(menu) if not c.get("tiny")]
+        items += [((i, ordinary[(k + 1) % len(ordinary)]), 3) for k, i in enumerate(ordinary)]
     return [(-2, (hname, pr, first, depth)) for hname in idn.hist_systems() for pr, depth in items for first in idn.HIST_OPS]
 
 
@@ -439,7 +468,7 @@ def run_item(arg):
         return run_topologies(quick)
     sysv = _systems(quick)[si]
     menu = _menu(quick)
-    cells = [menu[ci], menu[(ci + 1) % len(menu)]]
+    cells = _pair(ci, menu)
     n = sysv["n"]
     recs = []
     st = _empty_stats()
@@ -474,7 +503,8 @@ def run_item(arg):
             mol_of[a] = mi
     Vinv = np.linalg.inv(Vst)
     md_pairs = np.array(iu).T
-    md_d0 = md.compute_distances(t0, md_pairs, periodic=True)
+    # recorded only (C09 domain); skipped for the many relabelled systems in the quick tier
+    md_d0 = None if (quick and sysv.get("light")) else md.compute_distances(t0, md_pairs, periodic=True)
 
     def rec(api, kind, detail, frames_bad):
         f = int(np.argmax(frames_bad)) if frames_bad is not None else -1
@@ -494,15 +524,16 @@ def run_item(arg):
         atoms = list(t.topology.atoms)
         return [set(atoms[a] for a in sysv["mols"][mi]) for mi in spec]
 
-    def call(api, t, inplace):
+    def call(api, t, inplace, sorted_bonds=None):
         """api: 'make_molecules_whole' | 'image_molecules/mw=1' | 'image_molecules/mw=0'"""
+        kw = {} if sorted_bonds is None else {"sorted_bonds": sorted_bonds}
         if api == "make_molecules_whole":
-            return t.make_molecules_whole(inplace=inplace)
+            return t.make_molecules_whole(inplace=inplace, **kw)
         spec = sysv["anchors"] if sysv["anchors"] is not None else [0]
-        return t.image_molecules(inplace=inplace, anchor_molecules=anchors_for(t, spec), make_whole=api.endswith("mw=1"))
+        return t.image_molecules(inplace=inplace, anchor_molecules=anchors_for(t, spec), make_whole=api.endswith("mw=1"), **kw)
 
-    def judge(api, x1f32):
-        """All per-frame oracle checks of one result."""
+    def judge(api, x1f32, light=False):
+        """All per-frame oracle checks of one result (light: lattice congruence, bonded pairs, rigid units only)."""
         image = api.startswith("image")
         x1 = x1f32.astype(np.float64)
         delta = x1 - x0
@@ -521,13 +552,14 @@ def run_item(arg):
                 "coefficients %s" % (" minus move of atom 0" if image else "", np.round(coef[f], 4).tolist()), bad)
         moved = np.any(k != 0, axis=(1, 2))
         # all pair minimum-image distances unchanged
-        D1, B1 = _min_image_rows(x1[:, iu[1]] - x1[:, iu[0]], V2, sel, Rs)
-        e = np.abs(D1 - D0).max(1) if D0.shape[1] else np.zeros(F)
-        st["err"] = max(st["err"], float((e / (4 * tol)).max()))
-        if (e > 4 * tol).any():
-            rec(api, "mic-distance-changed", "max |d*_new - d*_old| = %.3g" % e.max(), e > 4 * tol)
+        if not light:
+            D1, B1 = _min_image_rows(x1[:, iu[1]] - x1[:, iu[0]], V2, sel, Rs)
+            e = np.abs(D1 - D0).max(1) if D0.shape[1] else np.zeros(F)
+            st["err"] = max(st["err"], float((e / (4 * tol)).max()))
+            if (e > 4 * tol).any():
+                rec(api, "mic-distance-changed", "max |d*_new - d*_old| = %.3g" % e.max(), e > 4 * tol)
         # bonded pairs at their minimum-image separation (only promised when molecules are made whole)
-        if not api.endswith("mw=0") and sysv["bonds"]:
+        if "mw=0" not in api and sysv["bonds"]:
             bp = np.array([pair_index[tuple(sorted(b))] for b in sysv["bonds"]])
             plain = np.linalg.norm(x1[:, iu[1][bp]] - x1[:, iu[0][bp]], axis=-1)
             eb = np.abs(plain - D0[:, bp])
@@ -538,7 +570,7 @@ def run_item(arg):
                 rec(api, "bonded-pair-not-at-minimum-image", "bond %s (driver order %s): |r_j-r_i| = %.4f but minimum-image "
                     "distance %.4f" % (tuple(sorted(sysv["bonds"][b])), bonds_sorted, plain[f, b], D0[f, bp[b]]), (~okb).any(1))
         # rigid non-anchor molecules when not made whole
-        if api.endswith("mw=0"):
+        if "mw=0" in api:
             anch = set(sysv["anchors"]) if isinstance(sysv["anchors"], list) else ({0} if sysv["anchors"] is None else None)
             if anch is None:
                 g = sysv["_guessed"]
@@ -551,6 +583,8 @@ def run_item(arg):
                         st["anchor_not_rigid_recorded"] += int(notrigid.sum())
                     else:
                         rec(api, "non-anchor-molecule-not-moved-as-unit", "molecule %s" % (m,), notrigid)
+        if light:
+            return moved, tol
         # angles and dihedrals from minimum-image vectors, unique-image tuples only
         M1 = _full(B1, n)
         lim = (UNIQUE_FRAC * wfr)[:, None]
@@ -612,6 +646,7 @@ def run_item(arg):
         except ValueError:
             sysv["_guessed"] = None
     extra_guess = sysv["anchors"] is None      # single-molecule systems: also try the guessed-anchor call
+    default_result = {}
     for api in apis:
         if only and api != only:
             continue
@@ -645,14 +680,16 @@ def run_item(arg):
             rec(api, "shape-or-dtype-changed", "%s %s" % (r.xyz.shape, r.xyz.dtype), None)
             continue
         rx = r.xyz.copy()
+        default_result[api] = rx
         moved, tol = judge(api, rx)
         st["evals"] += F
         nt = int(len(np.unique(sc[moved].reshape(int(moved.sum()), -1), axis=0))) if moved.any() else 0
         st["nontrivial"] += nt
         # recorded only: md.compute_distances(periodic=True) before/after
-        md_d1 = md.compute_distances(r, md_pairs, periodic=True)
-        inc = np.abs(md_d1.astype(np.float64) - md_d0) > 4 * tol[:, None]
-        st["md_inconsistent"] += int(inc.sum())
+        if md_d0 is not None:
+            md_d1 = md.compute_distances(r, md_pairs, periodic=True)
+            inc = np.abs(md_d1.astype(np.float64) - md_d0) > 4 * tol[:, None]
+            st["md_inconsistent"] += int(inc.sum())
         if st["sample"] is None and moved.any():
             f = int(np.argmax(moved))
             st["sample"] = dict(system=sysv["name"], api=api, cell=cells[sel[f]]["name"], images_per_atom=sc[f][:-1].reshape(n, 3).tolist(),
@@ -681,6 +718,57 @@ def run_item(arg):
                 st["evals"] += F
             except ValueError:
                 st["guess_raised"] += 1
+
+    # ---- explicit sorted_bonds= argument: a correct placement order supplied by the caller ----
+    if sysv["bonds"]:
+        roots = ("high",) if quick else ("high", "low")
+        for api in ("make_molecules_whole", "image_molecules/mw=1"):
+            if (only and api != only) or api not in default_result:
+                continue
+            for root in roots:
+                sb = idn.walk_order(n, sysv["bonds"], root)
+                sb0 = sb.copy()
+                tag = "%s/sorted_bonds=walk-from-%s" % (api, root)
+                src, _sc, _sel, _w = _build(sysv, cells, quick, seed)
+                try:
+                    r = call(api, src, False, sorted_bonds=sb)
+                except Exception as e:  # noqa: BLE001
+                    rec(tag, "raised", "%s: %s" % (type(e).__name__, e), None)
+                    continue
+                st["evals"] += F
+                st["explicit_bond_calls"] += 1
+                if not _same(sb, sb0):
+                    rec(tag, "sorted_bonds-argument-modified", "%s -> %s" % (sb0.tolist(), sb.tolist()), None)
+                if not _same(src.xyz, snap["xyz"]):
+                    rec(tag, "inplace=False-modified-source", "source xyz changed", None)
+                if _same(r.xyz, default_result[api]):
+                    st["explicit_bond_identical_to_default"] += 1
+                else:
+                    judge(tag, r.xyz.copy(), light=True)
+
+    # ---- tiny cells: every frame alone (a 1-frame trajectory) must give what it gives inside the big trajectory ----
+    if cells[0].get("tiny") and not only or only == "single-frame":
+        fsel = np.arange(F) if F <= 800 else np.where(np.all(sc[:, :3] == 0, axis=1))[0]
+        top1 = _topology(sysv)
+        for api in apis:
+            if api not in default_result:
+                continue
+            got = np.zeros((len(fsel), n, 3), np.float32)
+            for q, f in enumerate(fsel):
+                t1 = md.Trajectory(snap["xyz"][f:f + 1].copy(), top1, time=snap["time"][f:f + 1].copy(),
+                                   unitcell_lengths=snap["ul"][f:f + 1].copy(), unitcell_angles=snap["ua"][f:f + 1].copy())
+                got[q] = call(api, t1, False).xyz[0]
+            st["evals"] += len(fsel)
+            st["single_frame_calls"] += len(fsel)
+            ref = default_result[api][fsel]
+            if not _same(got, ref):
+                diff = np.zeros(F, bool)
+                diff[fsel] = np.any(got != ref, axis=(1, 2))
+                rec(api + "/single-frame", "frame-result-depends-on-other-frames", "the frame alone and the frame inside "
+                    "the %d-frame trajectory give different coordinates" % F, diff)
+                full = default_result[api].copy()
+                full[fsel] = got
+                judge(api + "/single-frame", full, light=True)
     return recs, st
 
 
@@ -698,7 +786,7 @@ def run(ctx):
         res[i] = r
     tot = dict(evals=0, nontrivial=0, guess_raised=0, md_inconsistent=0, excluded_ambiguous=0, excluded_illcond=0,
                anchor_not_rigid_recorded=0, frames=0, api_runs=0, tuples_checked=0, topologies=0, histories=0,
-               histories_pruned=0)
+               histories_pruned=0, explicit_bond_calls=0, explicit_bond_identical_to_default=0, single_frame_calls=0)
     err = 0.0
     samples = []
     keys = set()
@@ -729,6 +817,9 @@ def run(ctx):
         "trajectory_frames": tot["frames"],
         "api_calls_judged": tot["api_runs"],
         "bond_graphs_enumerated_for_find_molecules": tot["topologies"],
+        "explicit_sorted_bonds_calls_judged": tot["explicit_bond_calls"],
+        "explicit_sorted_bonds_results_bit_identical_to_default": tot["explicit_bond_identical_to_default"],
+        "single_frame_trajectory_calls_in_tiny_cells": tot["single_frame_calls"],
         "edit_histories_executed": tot["histories"],
         "edit_histories_pruned_edit_not_applicable": tot["histories_pruned"],
         "angle_dihedral_tuples_checked": tot["tuples_checked"],
